@@ -89,6 +89,8 @@ def names(scheme, n):
         return ["0;1", "0", "1", "0; 1"][:n]
     if scheme == "reserved":
         return ["TRASH", "TrashNode", "Empty", "Start"][:n]
+    if scheme == "quoted":      # two values with one spelling plus names that look like the disambiguated merged names
+        return [1, "1", "1'", "1''"][:n]
     if scheme == "pairA":       # with pairB: two different pairs of states whose "p; q" spellings coincide
         return ["p", "p; q", "z", "y"][:n]
     if scheme == "pairB":
